@@ -267,6 +267,9 @@ def multi_sink_case(rng: random.Random, with_ns: bool = True, empty_later_sink: 
            "preset": preset, "delimited": True, "generalized": False, "rdf_star": False, "ns": with_ns,
            "stream_name": "", "via": rng.choice(["frames", "file"]), "collect": rng.random() < .3,
            "params_build": rng.choice(["direct", "direct", "version1", "replace"])}
+    kind = gen.rng_for("sinks-as", repr(groups)).choice(["generator", "generator", "list", "tuple"])
+    if kind != "generator":
+        cfg["sinks_as"] = kind
     return cfg, groups, nss
 
 
